@@ -447,3 +447,76 @@ func parseLastValue(pair string) uint64 {
 	}
 	return 0
 }
+
+// oneShot decides the conjunction of terms in a fresh solver process (fallback after an unknown).
+func oneShot(kind string, tb *TB, terms []*Term, want []*Term, timeoutS int) (Result, map[*Term]uint64) {
+	var sb strings.Builder
+	if kind == "cvc5" || kind == "cvc5-int" {
+		sb.WriteString("(set-logic ALL)\n(set-option :produce-models true)\n")
+	} else {
+		sb.WriteString("(set-option :produce-models true)\n")
+	}
+	seen := map[*Term]bool{}
+	var vars []*Term
+	ufs := map[string]bool{}
+	seenU := map[*Term]bool{}
+	for _, t := range append(append([]*Term{}, terms...), want...) {
+		collectVars(t, seen, &vars)
+		collectUFs(t, seenU, ufs)
+	}
+	for _, v := range vars {
+		fmt.Fprintf(&sb, "(declare-const %s %s)\n", smtSym(v.name), sortStr(v.w))
+	}
+	for u := range ufs {
+		sb.WriteString(tb.ufs[u] + "\n")
+	}
+	for _, t := range terms {
+		sb.WriteString("(assert " + tb.SMT(t) + ")\n")
+	}
+	sb.WriteString("(check-sat)\n")
+	if len(want) > 0 {
+		sb.WriteString("(get-value (")
+		for _, w := range want {
+			sb.WriteString(tb.SMT(w) + " ")
+		}
+		sb.WriteString("))\n")
+	}
+	var cmd *exec.Cmd
+	switch kind {
+	case "z3":
+		cmd = exec.Command("z3", "-in", fmt.Sprintf("-T:%d", timeoutS))
+	case "z3-new":
+		cmd = exec.Command("z3-new", "-in", fmt.Sprintf("-T:%d", timeoutS))
+	case "cvc5":
+		cmd = exec.Command("cvc5", "--lang=smt2", "--produce-models", fmt.Sprintf("--tlimit=%d", timeoutS*1000))
+	case "cvc5-int":
+		cmd = exec.Command("cvc5", "--lang=smt2", "--produce-models", "--solve-bv-as-int=sum", fmt.Sprintf("--tlimit=%d", timeoutS*1000))
+	default:
+		return Unknown, nil
+	}
+	cmd.Stdin = strings.NewReader(sb.String())
+	out, _ := cmd.CombinedOutput()
+	s := strings.TrimSpace(string(out))
+	if strings.Contains(s, "(error") && !strings.HasPrefix(s, "unsat") {
+		return Unknown, nil
+	}
+	switch {
+	case strings.HasPrefix(s, "unsat"):
+		return Unsat, nil
+	case strings.HasPrefix(s, "sat"):
+		if len(want) == 0 {
+			return Sat, nil
+		}
+		rest := strings.TrimSpace(strings.TrimPrefix(s, "sat"))
+		vals := parseValues(rest)
+		if len(vals) != len(want) {
+			return Unknown, nil
+		}
+		m := map[*Term]uint64{}
+		for i, w := range want {
+			m[w] = vals[i]
+		}
+		return Sat, m
+	}
+	return Unknown, nil
+}
